@@ -767,4 +767,184 @@ theorem childPayloads_chunkG {c : Codec} (hc : c.RoundTrip) {H : Bytes → Bytes
     rw [ih (i + 1) _ (fun g hg' => hst g (by simp only [chunkG]; exact List.mem_cons_of_mem _ hg'))
       (fun t' ht' => hmax t' (by simp [ht']))]
 
+
+/-! ## Totality of apply_records in the repaired code -/
+
+/-- what `put_internal` guarantees about a record -/
+structure RecOk (c : Codec) (e : Entry) : Prop where
+  small : e.payload.length ≤ MAX_FRAME_BYTES
+  decodes : ∃ p, decodeCanonical c e.payload e.enc = some p ∧ p.length = e.canonLen
+  manifest_search : e.role = .document → e.manifest.isSome → e.search.isSome
+
+/-- every record finds its parent in the sequence map as the loop builds it -/
+def ResolvesAll : List (Nat × Nat) → Nat → List (Nat × Entry) → Prop
+  | _, _, [] => True
+  | m, id, r :: rs => (resolveParent m r.2.parentSeq).isSome ∧ ResolvesAll ((r.1, id) :: m) (id + 1) rs
+
+theorem applyInsert_total {c : Codec} {H : Bytes → Bytes} {st : ApSt} {seq : Nat} {e : Entry} {parent : Option Nat}
+    (hi : LInv st) (hde : st.s.payloadEnd ≤ st.s.dataEnd) (hp : resolveParent st.seqMap e.parentSeq = some parent)
+    (hok : RecOk c e) : applyInsert c H true st seq e = .ok (okStep H true st seq parent e) := by
+  obtain ⟨h1, h2⟩ := hi
+  have hidx : indexTextErr c (viewAfterWrite true st e) st.s.engine e
+      (mkFrame H st.s.frames.length st.cursor parent e) = none := by
+    unfold indexTextErr
+    split
+    · rename_i hcond
+      have hsn : e.search = none := by
+        cases hs : e.search with
+        | none => rfl
+        | some b => simp [hs] at hcond
+      unfold frameContentErr
+      have hfs : (mkFrame H st.s.frames.length st.cursor parent e).search = none := hsn
+      rw [hfs]
+      simp only [reduceCtorEq, if_false, Option.isSome_none, Bool.false_eq_true]
+      split
+      · rfl
+      · have hnm : isManifestDoc (mkFrame H st.s.frames.length st.cursor parent e) = false := by
+          cases hm : isManifestDoc (mkFrame H st.s.frames.length st.cursor parent e) with
+          | false => rfl
+          | true =>
+            simp only [isManifestDoc, mkFrame, Bool.and_eq_true, beq_iff_eq] at hm
+            have := hok.manifest_search hm.1 hm.2
+            rw [hsn] at this
+            simp at this
+        rw [hnm]
+        simp only [Bool.false_eq_true, if_false]
+        split
+        · rfl
+        · obtain ⟨p, hp1, hp2⟩ := hok.decodes
+          have hown : ownCanonical c (viewAfterWrite true st e) (mkFrame H st.s.frames.length st.cursor parent e) = .ok p := by
+            apply ownCanonical_of_holds (g := (mkFrame H st.s.frames.length st.cursor parent e, e.payload))
+            · refine ⟨rfl, ?_, ?_⟩
+              · simp only [viewAfterWrite, mkFrame]; exact slice_writeExt_same _ _ _
+              · intro _; simp only [viewAfterWrite, mkFrame]; omega
+            · simp only [viewAfterWrite, if_true]; omega
+            · simp only [viewAfterWrite, writeExt_length]; omega
+            · exact hok.small
+            · exact hp1
+            · exact hp2
+          unfold canonicalBytes
+          rw [hnm]
+          simp only [Bool.false_eq_true, if_false, hown, Except.toErr]
+    · rfl
+  unfold applyInsert
+  rw [hp]
+  dsimp only
+  rw [hidx]
+  rfl
+
+theorem applyLoop_total {c : Codec} {H : Bytes → Bytes} :
+    ∀ (recs : List (Nat × Entry)) (st : ApSt), LInv st → st.s.payloadEnd ≤ st.s.dataEnd →
+      ResolvesAll st.seqMap st.s.frames.length recs → (∀ r ∈ recs, RecOk c r.2) →
+      ∃ st', applyLoop c H true st recs = .ok st' := by
+  intro recs
+  induction recs with
+  | nil => intro st _ _ _ _; exact ⟨st, rfl⟩
+  | cons r rs ih =>
+    intro st hi hde hres hok
+    obtain ⟨hr1, hr2⟩ := hres
+    obtain ⟨parent, hp⟩ := Option.isSome_iff_exists.mp hr1
+    have h1 := applyInsert_total (H := H) (seq := r.1) hi hde hp (hok r (by simp))
+    simp only [applyLoop, h1]
+    apply ih
+    · exact okStep_linv H true st r.1 parent r.2 hi
+    · simp only [okStep, viewAfterWrite, if_true]; omega
+    · have : (okStep H true st r.1 parent r.2).s.frames.length = st.s.frames.length + 1 := by simp [okStep]
+      rw [this]; exact hr2
+    · intro r' hr'; exact hok r' (by simp [hr'])
+
+theorem resolves_append : ∀ (xs ys : List (Nat × Entry)) (m : List (Nat × Nat)) (id : Nat),
+    ResolvesAll m id xs → (∀ m' id', ResolvesAll m' id' ys) → ResolvesAll m id (xs ++ ys) := by
+  intro xs
+  induction xs with
+  | nil => intro ys m id _ h; exact h m id
+  | cons x xs ih =>
+    intro ys m id h hy
+    exact ⟨h.1, ih ys _ _ h.2 hy⟩
+
+theorem resolves_chunks (c : Codec) (a : PutArgs) (q d : Nat) :
+    ∀ (ts : List Bytes) (i : Nat) (m : List (Nat × Nat)) (id : Nat), m.lookup q = some d →
+      ResolvesAll m id (chunkRecords c a q ts i) := by
+  intro ts
+  induction ts with
+  | nil => intro i m id _; trivial
+  | cons t ts ih =>
+    intro i m id hm
+    refine ⟨by simp [chunkEntry, resolveParent, hm], ?_⟩
+    apply ih
+    have hne : (q == q + 1 + i) = false := by simp; omega
+    simp [List.lookup, hne, hm]
+
+theorem resolves_pend (c : Codec) :
+    ∀ (pend : List PutArgs) (q : Nat) (m : List (Nat × Nat)) (id : Nat), ResolvesAll m id (pendRecs c q pend) := by
+  intro pend
+  induction pend with
+  | nil => intro q m id; trivial
+  | cons a rest ih =>
+    intro q m id
+    simp only [pendRecs, putRecords, List.cons_append]
+    refine ⟨by simp [parentEntry, resolveParent], ?_⟩
+    apply resolves_append
+    · exact resolves_chunks c a (q + 1) id _ _ _ _ (by simp [List.lookup])
+    · intro m' id'; exact ih _ m' id'
+
+/-- what C07 presupposes of a put: its stored pieces fit a frame (256 MiB), and a chunked document
+    carries search text (put_internal sets it to the normalized first chunk) -/
+structure PutOk (c : Codec) (a : PutArgs) : Prop where
+  parent_small : (parentEntry c a).payload.length ≤ MAX_FRAME_BYTES
+  chunks_small : ∀ t ∈ a.chunks, (prepare c DEFAULT_LEVEL t).bytes.length ≤ MAX_FRAME_BYTES
+  manifest_search : a.plan.isSome → a.role = .document → a.search.isSome
+
+theorem recOk_chunks (c : Codec) (hc : c.RoundTrip) (a : PutArgs) (q : Nat) :
+    ∀ (ts : List Bytes) (i : Nat), (∀ t ∈ ts, (prepare c DEFAULT_LEVEL t).bytes.length ≤ MAX_FRAME_BYTES) →
+      ∀ r ∈ chunkRecords c a q ts i, RecOk c r.2 := by
+  intro ts
+  induction ts with
+  | nil => intro i _ r hr; cases hr
+  | cons t ts ih =>
+    intro i hs r hr
+    simp only [chunkRecords] at hr
+    rcases List.mem_cons.mp hr with rfl | hr
+    · have hd := decode_prepare c hc DEFAULT_LEVEL t
+      exact ⟨hs t (by simp), ⟨t, hd.1, hd.2.symm⟩, fun h => by simp [chunkEntry] at h⟩
+    · exact ih (i + 1) (fun t' ht' => hs t' (by simp [ht'])) r hr
+
+theorem recOk_pend (c : Codec) (hc : c.RoundTrip) :
+    ∀ (pend : List PutArgs) (q : Nat), (∀ a ∈ pend, PutOk c a) → ∀ r ∈ pendRecs c q pend, RecOk c r.2 := by
+  intro pend
+  induction pend with
+  | nil => intro q _ r hr; cases hr
+  | cons a rest ih =>
+    intro q hok r hr
+    simp only [pendRecs, putRecords, List.cons_append] at hr
+    have ha := hok a (by simp)
+    rcases List.mem_cons.mp hr with rfl | hr
+    · refine ⟨ha.parent_small, ?_, ?_⟩
+      · show ∃ p, decodeCanonical c (parentStored c a).bytes (parentStored c a).enc = some p ∧ p.length = (parentStored c a).canonLen
+        unfold parentStored
+        split
+        · exact ⟨[], rfl, rfl⟩
+        · have hd := decode_prepare c hc a.level a.payload
+          exact ⟨a.payload, hd.1, hd.2.symm⟩
+      · intro hr hm
+        apply ha.manifest_search _ hr
+        simpa [parentEntry] using hm
+    · rcases List.mem_append.mp hr with hr | hr
+      · exact recOk_chunks c hc a (q + 1) a.chunks 0 ha.chunks_small r hr
+      · exact ih _ (fun a' ha' => hok a' (by simp [ha'])) r hr
+
+/-- in the repaired code `apply_records` accepts the records of any well-formed pending puts -/
+theorem applyRecords_total {c : Codec} (hc : c.RoundTrip) {H : Bytes → Bytes} {s : Store}
+    {bl : List (Nat × PutArgs)} {pend : List PutArgs} (hi : Inv c H s bl pend) (hok : ∀ a ∈ pend, PutOk c a) :
+    ∃ s', applyRecords c H true s s.pending = .ok s' := by
+  obtain ⟨q, hq, _⟩ := hi.pending
+  unfold applyRecords
+  split
+  · exact ⟨s, rfl⟩
+  · obtain ⟨st', h⟩ := applyLoop_total (c := c) (H := H) s.pending { s := s, cursor := s.dataEnd, seqMap := [] }
+      ⟨hi.pe_de, hi.pe_file⟩ hi.pe_de (by rw [hq]; exact resolves_pend c pend q [] _)
+      (by rw [hq]; exact recOk_pend c hc pend q hok)
+    rw [h]
+    exact ⟨_, rfl⟩
+
 end Mv.Content
